@@ -945,7 +945,7 @@ xmlwrite_mode(struct archive_write *a, struct xml_writer *writer,
 {
 	char ms[5];
 
-	ms[0] = '0';
+	ms[0] = '0' + ((mode >> 9) & 07);
 	ms[1] = '0' + ((mode >> 6) & 07);
 	ms[2] = '0' + ((mode >> 3) & 07);
 	ms[3] = '0' + (mode & 07);
